@@ -150,7 +150,35 @@ def run(ctx):
     ctx.floor('V1 handlers of the event loop', nh, 1)
     if not any(tuple(v['key'])[1:2] == ('handler-operates-on-loop-local',) for v in ctx.violations):
         ctx.ok('V1', 'the %d handler(s) of the event loop only format the values the interrupted iteration left behind' % nh, ctx.site(ml, loop))
+    # the sender's address is used as it was received: the host (element 0) goes to dispatch_message, the address object itself to
+    # sendto.  An AF_INET6 socket reports a 4-tuple (host, port, flowinfo, scope id): code that takes the address apart with a fixed
+    # arity raises for every IPv6 datagram *after it was consumed* (the iteration - and with it the timers of every other IKE_SA -
+    # ends there), and an address put together again loses the scope id
+    MLV = ctx.sval(ml)
+    from ..sval import strip_ids as _sid
+    from .. import tq as _tq
+    recvs = [c for c in MLV.calls if c.name == 'recvfrom']
+    ctx.floor('V1 recvfrom in the event loop', len(recvs), 1, rule='V1')
+    for rc in recvs:
+        R = _sid(rc.term)
+        addr = ('index', R, ('const', 'int', 1))
+        disp = [c for c in MLV.calls_to(qual='ikesacontroller.IkeSaController.dispatch_message') if _tq.contains(_sid(tuple(c.args.values())), R)]
+        for c in disp:
+            pa = _sid(list(c.args.values())[2]) if len(c.args) > 2 else None
+            ctx.check(pa == ('index', addr, ('const', 'int', 0)), 'V1', 'the peer address handed to dispatch_message is element 0 of the '
+                      'address recvfrom returned', key=('V1', 'peer-address-host'), site=ctx.site(ml, c.node),
+                      detail={'found': _tq.text(pa, 200) if pa is not None else None})
+        replies = [c for c in MLV.calls if c.name == 'sendto' and any(_tq.contains(_sid(v), _sid(d.term)) for d in disp for v in list(c.args.values())[:1])]
+        ctx.floor('V1 reply to the sender of a datagram', len(replies), 1, rule='V1')
+        for c in replies:
+            dst = _sid(list(c.args.values())[1]) if len(c.args) > 1 else None
+            ctx.check(dst == addr, 'V1', 'the reply goes to the address object the datagram came from (not to one taken apart and '
+                      'put together again)', key=('V1', 'reply-address'), site=ctx.site(ml, c.node),
+                      detail={'found': _tq.text(dst, 200) if dst is not None else None})
     common.parse_errors_propagate(ctx, 'V4')
+    # what a failing datagram makes the controller drop is at most the entry this very datagram created: an error path that removes
+    # whatever IKE_SA a cleartext header field selected lets one datagram take an established IKE_SA away from the daemon
+    common.deleted_observed(ctx, esc, 'V4')
     # ---------------------------------------------------------------- V2
     # a DELETED entry leaves the table only after its kernel SAs were removed: that removal must not be able to fail on an SA
     # the kernel has already dropped, or the dead entry raises again on every later iteration
